@@ -13,6 +13,7 @@ pub mod c09;
 pub mod c10;
 pub mod c11;
 pub mod c12;
+pub mod c13;
 pub mod c14;
 pub mod c15;
 pub mod c16;
@@ -33,6 +34,7 @@ pub fn run(id: &str, rep: &mut Report) -> bool {
         "C10" => c10::run(rep),
         "C11" => c11::run(rep),
         "C12" => c12::run(rep),
+        "C13" => c13::run(rep),
         "C14" => c14::run(rep),
         "C15" => c15::run(rep),
         "C16" => c16::run(rep),
@@ -58,6 +60,7 @@ pub fn replay(id: &str, v: &Value) -> i32 {
         "C10" => c10::replay(w),
         "C11" => c11::replay(w),
         "C12" => c12::replay(w),
+        "C13" => c13::replay(w),
         "C14" => c14::replay(w),
         "C15" => c15::replay(w),
         "C16" => c16::replay(w),
